@@ -7,7 +7,7 @@ import MindsVerif.Model.SingleLine
       → canonical form of the copy (`Heap.canon`) # iso=<Heap.isoCheck original copy>, or `none`
   stepeq TY k=v … | TY k=v …                     → true | false | none | raises   (`PlanStep.__eq__`)
   planeq FIXED SAMETYPE _ s s … | _ s s …        step tokens (after a dummy `_`); equal tokens = equal steps (`QueryPlan.__eq__`)
-  hash N                                          → TypeError | ok               (`Result.__hash__` as pinned)
+  hash pinned N | hash fixed N T                  → TypeError | ok <h>   (`Result.__hash__`: former / repaired, T = hash(('Result', N)))
   sline VARIANT n,n,n…                            character codes; `to_single_line` (pinned | fixed) → character codes
   coleq a b c d e f | a b c d e f                 name type pk default length nullable (`TableColumn.__eq__`) -/
 open MindsVerif.Heap MindsVerif.PyEq
@@ -67,10 +67,14 @@ def handle (line : String) : String :=
                  else MindsVerif.SingleLine.collapseGo false false cs
       ",".intercalate (out.map (fun c => toString c.toNat))
     | ["sline", _] => ""
-    | ["hash", n] =>
+    | ["hash", "pinned", n] =>
       match n.toInt? with
-      | some i => (match resultHash (fun x => x) i with | .ok _ => "ok" | .error e => e)
+      | some i => (match resultHash (fun x => x) i with | .ok v => s!"ok {v}" | .error e => e)
       | none => "bad-line"
+    | ["hash", "fixed", n, t] =>
+      match n.toInt?, t.toInt? with
+      | some i, some tv => (match resultHashFixed (fun _ _ => tv) i with | .ok v => s!"ok {v}" | .error e => e)
+      | _, _ => "bad-line"
     | "coleq" :: a =>
       match a, rest.map words with
       | [a1, a2, a3, a4, a5, a6], [[b1, b2, b3, b4, b5, b6]] =>
